@@ -7,6 +7,12 @@
 //!         matched with the real `Router::match_request`;
 //!       oracle inside the harness: all of them are identical (else `order-dependent`).
 //! obs:  {"action": that action, "cmp":[[i,j,-1|0|1]…]} — `Rule::cmp(rules[i], rules[j])` for the listed pairs.
+//!
+//! Second case kind {"kind":"markers", …} (review C11-1): rules with 2-3 markers / variables (equal and prefix-related
+//! name lengths) used in target, header filter value and body filter values; substitution is NOT modelled (C10 owns it),
+//! the oracles are on the implementation alone: the serialised action is the same over 24 evaluations in one process
+//! (`nondeterministic`), over the permutations of the match vector and over router insertion orders (`order-dependent`),
+//! and the Location filter agrees with `Action::get_target` (`target-disagrees`).  obs = {"kind":"markers","rules":n}.
 #[path = "c05.rs"]
 #[allow(dead_code)]
 mod c05;
@@ -107,6 +113,11 @@ fn gen(args: &Args, emit: &mut dyn FnMut(Value)) {
             emit(json!({"rules": rules, "ov": null, "skipped": null, "pseed": 7, "pairs": all_pairs(n)}));
         }
     }
+    // marker / variable family (review C11-1): substitution is outside the model; implementation-only oracles
+    let mut mr = Prng::new(args.seed ^ 0x6d61_726b);
+    for _ in 0..(args.n / 4).max(5) {
+        emit(gen_marker_case(&mut mr));
+    }
     for _ in 0..args.n {
         let n = match rng.below(10) {
             0 => 2,
@@ -121,6 +132,7 @@ fn gen(args: &Args, emit: &mut dyn FnMut(Value)) {
         let ids = c05::distinct_ids(&mut rng, n);
         let tie_rank = *rng.pick(&[0u64, 1, 2, 65535]);
         let heavy = rng.chance(2, 3);
+        let spread = rng.chance(2, 3);
         let rules: Vec<Value> = ids
             .iter()
             .enumerate()
@@ -132,12 +144,246 @@ fn gen(args: &Args, emit: &mut dyn FnMut(Value)) {
                 if ov.is_null() {
                     r["sampling"] = Value::Null; // "sampling disabled"
                 }
+                if spread {
+                    // triggers the fixed router request (https, a.com, GET, X-A: v, /x) satisfies, so that the rules live in
+                    // different scheme / host (static and regex tree) / method / header / path (static and regex tree) buckets
+                    let mut src = serde_json::Map::new();
+                    if rng.chance(1, 2) {
+                        src.insert("scheme".into(), json!("https"));
+                    }
+                    match rng.below(4) {
+                        0 => {
+                            src.insert("host".into(), json!("a.com"));
+                        }
+                        1 => {
+                            src.insert("host".into(), json!("@l.com"));
+                            src.insert("markers".into(), json!([{"name": "l", "regex": "[a-z]+"}, {"name": "s", "regex": "[^/]+"}]));
+                        }
+                        _ => {}
+                    }
+                    match rng.below(4) {
+                        0 => {
+                            src.insert("methods".into(), json!(["GET"]));
+                        }
+                        1 => {
+                            src.insert("methods".into(), json!(["POST", "GET", "GET"]));
+                        }
+                        2 => {
+                            src.insert("methods".into(), json!(["PUT"]));
+                            src.insert("exclude_methods".into(), json!(true));
+                        }
+                        _ => {}
+                    }
+                    if rng.chance(1, 3) {
+                        src.insert("headers".into(), json!([{"type": "is_defined", "name": "X-A", "value": null}]));
+                    } else if rng.chance(1, 3) {
+                        src.insert("headers".into(), json!([{"type": "is_equals", "name": "x-a", "value": "v"}, {"type": "is_not_defined", "name": "X-Z", "value": null}]));
+                    }
+                    if rng.chance(1, 3) {
+                        src.insert("path".into(), json!("/@s"));
+                        src.entry("markers").or_insert(json!([{"name": "l", "regex": "[a-z]+"}, {"name": "s", "regex": "[^/]+"}]));
+                    }
+                    r["src"] = Value::Object(src);
+                }
                 r
             })
             .collect();
         let np = rng.range(1, 8);
         let pairs: Vec<Value> = (0..np).map(|_| json!([rng.below(n), rng.below(n)])).collect();
         emit(json!({"rules": rules, "ov": ov, "skipped": c05_opt(&mut rng), "pseed": rng.next() % 1_000_000, "pairs": pairs}));
+    }
+}
+
+const NAME_SETS: &[&[&str]] = &[&["id", "ye"], &["id", "id2"], &["a", "ab", "abc"], &["id", "ye", "id2"], &["xx", "yy", "zz"], &["n", "m"]];
+const SEGMENTS: &[&str] = &["7", "2024", "a@id", "x@", "@ye", "id2", "9", "a-b", "@", "v@ab"];
+
+/// {"kind":"markers","rules":[real api::Rule JSON …],"path":str,"host":str?,"skipped":bool,"pseed":u64}
+/// Every rule has the same path shape `/m/@…/@…/@…` (three `[^/]+` markers whose names come from one name set: equal
+/// and prefix-related lengths), optionally explicit variables (marker / request_host / request_method kinds with
+/// equal-length names), and uses them — also joined, `@a@b` — in target, header filter values and body filter values.
+fn gen_marker_case(rng: &mut Prng) -> Value {
+    let n = rng.range(2, 6);
+    let names = *rng.pick(NAME_SETS);
+    let ids = c05::distinct_ids(rng, n);
+    let tie_rank = rng.below(3) as u64;
+    let rules: Vec<Value> = ids
+        .iter()
+        .enumerate()
+        .map(|(ri, id)| {
+            // three path markers: the names of the set, padded with fresh names, in a per-rule order
+            let mut ms: Vec<String> = names.iter().map(|s| s.to_string()).collect();
+            while ms.len() < 3 {
+                ms.push(format!("p{}", ms.len()));
+            }
+            for i in (1..ms.len()).rev() {
+                ms.swap(i, rng.below(i + 1));
+            }
+            let path = format!("/m/@{}/@{}/@{}", ms[0], ms[1], ms[2]);
+            let markers: Vec<Value> = ms.iter().map(|m| json!({"name": m, "regex": "[^/]+"})).collect();
+            let mut vars: Vec<Value> = Vec::new();
+            let mut used: Vec<String> = ms.clone();
+            if rng.chance(1, 2) {
+                // explicit variables: marker kinds (sometimes renamed to an equal-length name), host and method
+                for m in &ms {
+                    vars.push(json!({"name": m, "type": {"marker": m}}));
+                }
+                vars.push(json!({"name": "ho", "type": "request_host"}));
+                vars.push(json!({"name": "me", "type": "request_method"}));
+                used.push("ho".into());
+                used.push("me".into());
+                if rng.chance(1, 2) {
+                    vars.reverse();
+                }
+            }
+            let a = rng.pick(&used).clone();
+            let b = rng.pick(&used).clone();
+            let c = rng.pick(&used).clone();
+            let tpl = |rng: &mut Prng, pre: &str| match rng.below(4) {
+                0 => format!("{pre}@{a}/@{b}"),
+                1 => format!("{pre}@{a}@{b}"),
+                2 => format!("{pre}@{b}@{a}-@{c}"),
+                _ => format!("{pre}@{c}?x=@{a}&y=@{b}@{c}"),
+            };
+            json!({
+                "id": id, "rank": if rng.chance(2, 3) { tie_rank } else { rng.below(3) as u64 },
+                "source": {"path": path}, "markers": markers, "variables": vars,
+                "target": if rng.chance(3, 4) { json!(tpl(rng, "/t/")) } else { Value::Null },
+                "status_code": if rng.chance(2, 3) { json!(301 + ri as u64) } else { Value::Null },
+                "header_filters": [{"action": "add", "header": "X-M", "value": tpl(rng, "h-"), "id": null, "target_hash": null}],
+                "body_filters": [{"action": "append_text", "content": tpl(rng, "["), "id": null, "target_hash": null},
+                                 {"action": "append_child", "value": tpl(rng, "<i>"), "inner_value": if rng.chance(1, 2) { json!(tpl(rng, "")) } else { Value::Null },
+                                  "element_tree": ["html", "body"], "css_selector": null, "id": null, "target_hash": null}],
+                "reset": if rng.chance(1, 8) { json!(true) } else { Value::Null },
+                "stop": if rng.chance(1, 8) { json!(true) } else { Value::Null },
+            })
+        })
+        .collect();
+    let path = format!("/m/{}/{}/{}", *rng.pick(SEGMENTS), *rng.pick(SEGMENTS), *rng.pick(SEGMENTS));
+    json!({"kind": "markers", "rules": rules, "path": path, "host": if rng.chance(1, 2) { json!("h@id.com") } else { Value::Null },
+           "skipped": rng.chance(1, 4), "pseed": rng.next() % 1_000_000})
+}
+
+fn run_markers(case: &Value) -> Obs {
+    let arr = match case.get("rules").and_then(|r| r.as_array()) {
+        Some(a) => a,
+        None => return Obs::invalid("rules"),
+    };
+    let mut rules: Vec<Rule> = Vec::new();
+    for r in arr {
+        match serde_json::from_value::<Rule>(r.clone()) {
+            Ok(rule) => rules.push(rule),
+            Err(e) => return Obs::invalid(&format!("rule json: {e}")),
+        }
+    }
+    let n = rules.len();
+    if n == 0 || n > 9 {
+        return Obs::invalid("number of rules");
+    }
+    {
+        let mut ids: Vec<&str> = rules.iter().map(|r| r.id.as_str()).collect();
+        ids.sort();
+        ids.dedup();
+        if ids.len() != n {
+            return Obs::invalid("distinct ids");
+        }
+    }
+    let path = match s(case, "path") {
+        Some(p) => p,
+        None => return Obs::invalid("path"),
+    };
+    let host = s(case, "host");
+    let config = RouterConfig::default();
+    let mut request = redirectionio::http::Request::from_config(&config, path.clone(), host, Some("https".to_string()), Some("GET".to_string()), None, None);
+    if case.get("skipped").and_then(|b| b.as_bool()) == Some(true) {
+        request.path_and_query_skipped.skipped_query_params = Some("utm=1".to_string());
+    }
+    let mk_routes = |rules: &[Rule]| -> Vec<Arc<Route<Rule>>> { rules.iter().cloned().map(|r| Arc::new(r.into_route(&config))).collect() };
+    let routes = mk_routes(&rules);
+    let reference = serde_json::to_value(Action::from_routes_rule(routes.clone(), &request, None)).unwrap();
+    let mut failure: Option<(String, &'static str)> = None;
+    // (a) the same evaluation, 24 times in one process: on the same routes and on routes rebuilt from the rules
+    for k in 0..24 {
+        let v = if k % 2 == 0 { routes.clone() } else { mk_routes(&rules) };
+        let a = serde_json::to_value(Action::from_routes_rule(v, &request, None)).unwrap();
+        if a != reference {
+            failure = Some((format!("evaluation {k} of the same match vector gives a different action: {a} vs {reference}"), "nondeterministic"));
+            break;
+        }
+    }
+    // (b) permutations of the match vector, router insertion orders
+    let perms = permutations(n, case.get("pseed").and_then(|p| p.as_u64()).unwrap_or(0));
+    let mut substituted = false;
+    if failure.is_none() {
+        for p in &perms {
+            let v: Vec<Arc<Route<Rule>>> = p.iter().map(|&i| routes[i].clone()).collect();
+            let a = serde_json::to_value(Action::from_routes_rule(v, &request, None)).unwrap();
+            if a != reference {
+                failure = Some((format!("match vector order {:?} gives a different action", p), "order-dependent"));
+                break;
+            }
+        }
+    }
+    let mut matched_all = false;
+    if failure.is_none() {
+        for p in perms.iter().step_by((perms.len() / 8).max(1)).take(8) {
+            let mut router = Router::<Rule>::from_config(config.clone());
+            for &i in p {
+                router.insert(rules[i].clone());
+            }
+            let matched = router.match_request(&request);
+            matched_all = matched.len() == n;
+            // the router decides which rules match (a segment containing `/` never does); the comparison is with the
+            // action of exactly those rules
+            let ids: Vec<String> = matched.iter().map(|r| r.id().to_string()).collect();
+            let expected: Vec<Arc<Route<Rule>>> = routes.iter().filter(|r| ids.iter().any(|i| i == r.id())).cloned().collect();
+            let want = serde_json::to_value(Action::from_routes_rule(expected, &request, None)).unwrap();
+            let got = serde_json::to_value(Action::from_routes_rule(matched, &request, None)).unwrap();
+            if got != want {
+                failure = Some((format!("router built in order {:?} gives a different action", p), "order-dependent"));
+                break;
+            }
+        }
+    }
+    // (c) Action::get_target agrees with the Location filter from_routes_rule builds for the rule (every rule on its own)
+    if failure.is_none() {
+        for (route, rule) in routes.iter().zip(rules.iter()) {
+            let single = serde_json::to_value(Action::from_routes_rule(vec![route.clone()], &request, None)).unwrap();
+            let location = single["header_filters"].as_array().unwrap().iter().find(|f| f["filter"]["header"] == "Location").map(|f| f["filter"]["value"].as_str().unwrap().to_string());
+            let mut targets = Vec::new();
+            for _ in 0..5 {
+                targets.push(Action::get_target(route, &request));
+            }
+            if targets.iter().any(|t| *t != targets[0]) {
+                failure = Some((format!("Action::get_target of rule {} varies from call to call: {:?}", rule.id, targets), "nondeterministic"));
+                break;
+            }
+            let want = match (&rule.target, &targets[0]) {
+                (Some(t), Some(v)) if !t.is_empty() => Some(v.clone()),
+                _ => None,
+            };
+            if location != want {
+                failure = Some((format!("rule {}: Location filter {:?} but Action::get_target {:?}", rule.id, location, targets[0]), "target-disagrees"));
+                break;
+            }
+            if let (Some(t), Some(v)) = (&rule.target, &targets[0]) {
+                if t != v {
+                    substituted = true;
+                }
+            }
+        }
+    }
+    let mut o = Obs::new(json!({"kind": "markers", "rules": n})).trivial(n < 2);
+    o.tags.push("kind:markers".into());
+    o.tags.push(format!("rules:{n}"));
+    if substituted {
+        o.tags.push("substituted".into());
+    }
+    if matched_all {
+        o.tags.push("router-matches-all".into());
+    }
+    match failure {
+        Some((why, sig)) => o.fail(why, sig),
+        None => o,
     }
 }
 
@@ -188,6 +434,9 @@ fn permutations(n: usize, pseed: u64) -> Vec<Vec<usize>> {
 }
 
 fn run(case: &Value) -> Obs {
+    if case.get("kind").and_then(|k| k.as_str()) == Some("markers") {
+        return run_markers(case);
+    }
     let rules = match c05::build_rules(case) {
         Ok(r) => r,
         Err(e) => return Obs::invalid(&e),
@@ -225,11 +474,17 @@ fn run(case: &Value) -> Obs {
             break;
         }
     }
-    // insertion order / rebuild of a real router
-    let router_request = match c05::request(case, Some(&config)) {
-        Ok(r) => r,
-        Err(e) => return Obs::invalid(&e),
+    // insertion order / rebuild of a real router: the request satisfies every trigger the generator spreads the rules
+    // over (always_match_any_host, so that host-less rules stay candidates next to host-bound ones)
+    let mut config = config.clone();
+    config.always_match_any_host = true;
+    let router_request = {
+        let mut q = redirectionio::http::Request::from_config(&config, "/x".to_string(), Some("a.com".to_string()), Some("https".to_string()), Some("GET".to_string()), None, request.sampling_override);
+        q.add_header("X-A".to_string(), "v".to_string(), false);
+        q.path_and_query_skipped.skipped_query_params = request.path_and_query_skipped.skipped_query_params.clone();
+        q
     };
+    let reference_router = serde_json::to_value(Action::from_routes_rule(routes.clone(), &router_request, None)).unwrap();
     let router_perms: Vec<&Vec<usize>> = if n <= 4 { perms.iter().collect() } else { perms.iter().step_by((perms.len() / 12).max(1)).take(12).collect() };
     let mut n_router = 0;
     if failure.is_none() {
@@ -245,7 +500,7 @@ fn run(case: &Value) -> Obs {
             }
             let a = serde_json::to_value(Action::from_routes_rule(matched, &router_request, None)).unwrap();
             n_router += 1;
-            if a != reference {
+            if a != reference_router {
                 failure = Some(format!("router insertion order {:?} gives a different action", p));
                 break;
             }
@@ -283,6 +538,9 @@ fn run(case: &Value) -> Obs {
     }
     if ranks.len() == 1 && n > 1 {
         o.tags.push("all-tied".to_string());
+    }
+    if case.get("rules").and_then(|r| r.as_array()).map_or(false, |a| a.iter().any(|r| r.get("src").is_some())) {
+        o.tags.push("spread-buckets".to_string());
     }
     match failure {
         Some(why) => o.fail(why, "order-dependent"),
